@@ -30,22 +30,28 @@ def regen(ctx):
 
 
 def _run(ctx, strength):
+    """Two processes (each compiles its own assemblers): scalar potentials / Helmholtz far fields, and the four Maxwell
+    potential / far-field assemblers.  Both run on spaces restricted to a non-prefix segment of a non-uniform mesh."""
     payload = {"job": "scalar", "strength": strength, "numba": ctx.nb, "table": ctx.table}
-    if strength != "thorough":
-        return ctx.run_impl("c08_impl.py", payload, timeout=3000, threads=4)
-    # thorough: Maxwell potentials / far fields in a second process (own numba compilation)
+    mpayload = {"job": "maxwell", "strength": strength, "numba": ctx.nb, "maxwell": getattr(ctx, "maxwell", None)}
     with ThreadPoolExecutor(max_workers=2) as ex:
         a = ex.submit(ctx.run_impl, "c08_impl.py", payload, 3600, 4)
-        b = ex.submit(ctx.run_impl, "c08_impl.py", {"job": "maxwell", "strength": strength}, 3600, 4)
+        b = ex.submit(ctx.run_impl, "c08_impl.py", mpayload, 3600, 4)
         res, mx = a.result(), b.result()
     if res is None or mx is None:
-        return res
+        return None
+    for key in ("evaluations", "nontrivial"):
+        res["corr"][key] += mx["corr"][key]
+    res["corr"]["disagreements"] += mx["corr"]["disagreements"]
+    res["corr"]["samples"] = res["corr"]["samples"][:4] + mx["corr"]["samples"][:3]
+    for k, v in mx["corr"]["hist"].items():
+        res["corr"]["hist"][k] = res["corr"]["hist"].get(k, 0) + v
     res["search"]["evaluations"] += mx["search"]["evaluations"]
     res["search"]["worst"].update(mx["search"]["worst"])
     res["failures"] += mx["failures"]
     res["notes"] += mx["notes"]
     if "crash" in mx:
-        res["crash"] = mx["crash"]
+        res["crash"] = res.get("crash", "") + mx["crash"]
     return res
 
 
@@ -54,10 +60,13 @@ def correspond(ctx):
     ctx.c08_strength = strength
     res = ctx.c08 = _run(ctx, strength)
     ctx.corr["rule"] = ("(a) translator self-test of the 11 potential/far-field kernels (lanes vs the function's source); "
-                        "(b) operators.potential.{laplace,helmholtz,modified_helmholtz}.{single,double}_layer and "
-                        "operators.far_field.helmholtz.* evaluated through the API vs sum_q w_q J f(y_q) K(x,y_q) with K the "
-                        "translated kernel of the factory's kernel type, on the library's quadrature points; real and "
-                        "complex k, complex densities; non-trivial = API value non-zero")
+                        "(b) every potential / far-field assembler of numba_kernels.py -- scalar potentials, Helmholtz far "
+                        "fields, Maxwell E/H potentials, Maxwell E/H far fields -- evaluated through the API on a space "
+                        "restricted to a non-prefix, non-contiguous segment of a mesh with non-uniform triangle areas (P1 "
+                        "resp. RWG with dropped boundary dofs: multipliers 0/1 resp. +-1), complex coefficients, real and "
+                        "complex k, vs the sum over the library's quadrature points of the translated kernel / translated "
+                        "Maxwell integrand with densities recomputed from local2global and local_multipliers; non-trivial "
+                        "= API value non-zero")
     if res is None:
         return
     if "crash" in res:
